@@ -1,7 +1,7 @@
 """C13 - Tables behave like a list of rows; tree sequences never change (structural clauses)."""
 from __future__ import annotations
 
-from . import scopes
+from . import scopes, lib_kind
 from . import lib_schema, lib_module, lib_py, lib_mem
 
 LEVEL = "other"
@@ -31,6 +31,9 @@ def run(ctx):
     lib_py.facade_guard(ctx, py, "tables", "BaseTable.__getitem__", "index", "ll_table.get_row", upper="len(self)")
     lib_py.ll_positional(ctx, py, P, only=ps)
     lib_py.unused_params(ctx, py, mods=("tables",), only=ps)
+    lib_kind.py_lints(ctx, py, mods=("tables",), only=ps)
+    lib_kind.dict_atomic(ctx, P)
+    lib_kind.py_searchsorted(ctx, py, [("trees", "TreeSequence.site")])
     lib_module.name_agreement(ctx, P, classes=lib_module.TABLE_CLASSES + ("TableCollection",), floor=150)
     lib_py.facade_names(ctx, py, P, classes=tuple(("tables", c) for c in lib_py.FACADES["tables"]), floor=60)
     lib_mem.c_lints(ctx, ctx.program(), scopes.lib_scope("C13"))
